@@ -8,6 +8,7 @@
 -/
 import Pymodbus.Lemmas.Codec
 import Pymodbus.Generated.Tables
+import Pymodbus.Model.Events
 namespace Pymodbus.Props.C01
 open Pymodbus PduSpec
 
@@ -661,6 +662,58 @@ theorem file_record_counterexample :
 /-- diagnostic request with two data words is rejected by the decoder -/
 theorem diag_multiword_counterexample :
     Impl.decReq (8 :: PduSpec.encReq (.diag 0 (.list [1, 2]))) = .error .struct := rfl
+
+/-! ### Event bytes carried by the FC 12 (Get Comm Event Log) reply — `pymodbus/events.py`
+
+  Outside the message classes the property quantifies over (the reply treats `events` as opaque
+  bytes, covered above); modelled so that the whole of what the library can put on the wire for
+  FC 12 is inside the model.  Every statement is over ALL flag combinations / all 256 bytes. -/
+section Events
+open Pymodbus.Events
+
+/-- `RemoteSendEvent.encode` is the specification's byte: flags in bits 0..5, bit 6 set, bit 7 clear. -/
+theorem event_send_conforms (r a b n w l : Bool) :
+    encode (.send r a b n w l) = [specSendByte r a b n w l] := by
+  cases r <;> cases a <;> cases b <;> cases n <;> cases w <;> cases l <;> rfl
+
+/-- `RemoteSendEvent`: decode ∘ encode is the identity. -/
+theorem event_send_roundtrip (r a b n w l : Bool) :
+    (encode (.send r a b n w l)).map decodeSend = [.send r a b n w l] := by
+  cases r <;> cases a <;> cases b <;> cases n <;> cases w <;> cases l <;> rfl
+
+/-- `RemoteReceiveEvent.decode` reads the specification's bits (4 overrun, 5 listen-only, 6 broadcast). -/
+theorem event_recv_decode_conforms (o l b : Bool) :
+    decodeRecv (specRecvByte o l b) = .recv o l b := by
+  cases o <;> cases l <;> cases b <;> rfl
+
+/-- `RemoteReceiveEvent.encode` AS CODED (`[False] * 3` — seven bits) puts every flag one bit too low
+    and leaves bit 7 clear: the byte is `specRecvByte / 2`. -/
+theorem event_recv_encode_as_coded (o l b : Bool) :
+    encode (.recv o l b) = [specRecvByte o l b / 2] := by
+  cases o <;> cases l <;> cases b <;> rfl
+
+/-- …so it conforms for NO flag combination (bit 7, which marks a receive event, is never set), -/
+theorem event_recv_encode_never_conforms (o l b : Bool) :
+    encode (.recv o l b) ≠ [specRecvByte o l b] := by
+  cases o <;> cases l <;> cases b <;> decide
+
+/-- …and the class's own decode does not give back what was encoded (witness: overrun only). -/
+theorem event_recv_roundtrip_counterexample :
+    (encode (.recv true false false)).map decodeRecv = [.recv false false true] := rfl
+
+/-- the two fixed-value events round-trip and refuse every other byte -/
+theorem event_fixed_roundtrip :
+    (encode .listenMode).map decodeListen = [some .listenMode] ∧
+    (encode .restart).map decodeRestart = [some .restart] ∧
+    (∀ v, v ≠ 4 → decodeListen v = none) ∧ (∀ v, v ≠ 0 → decodeRestart v = none) := by
+  refine ⟨rfl, rfl, ?_, ?_⟩ <;> intro v hv <;> simp [decodeListen, decodeRestart, hv]
+
+/-- `RemoteSendEvent.decode` of any byte re-encodes to that byte's low six bits with the marker:
+    decode loses nothing but the two marker bits. -/
+theorem event_send_decode_encode : ∀ v, v < 256 → encode (decodeSend v) = [v % 64 + 64] := by
+  decide +kernel
+
+end Events
 
 /-- Non-vacuity of the hypotheses. -/
 example : Plain (.writeCoils 7 3 1 [true, false, true]) ∧ WFReq (.writeCoils 7 3 1 [true, false, true]) ∧
